@@ -26,6 +26,7 @@ import (
 	_ "net/http/pprof"
 	"os"
 	"strings"
+	"sync"
 	"time"
 
 	"github.com/containernetworking/cni/pkg/types"
@@ -351,6 +352,7 @@ func (g *Galaxy) setupPortMapping(req *galaxyapi.PodRequest, containerID string,
 		req.Ports); err != nil {
 		return err
 	}
+	g.hostPortOwners.set(k8s.GetPodFullName(req.PodName, req.PodNamespace), containerID)
 	data, err := json.Marshal(req.Ports)
 	if err != nil {
 		return fmt.Errorf("failed to marshal ports: %v", err)
@@ -393,8 +395,39 @@ func (g *Galaxy) updatePortMappingAnnotation(req *galaxyapi.PodRequest, data []b
 }
 
 func (g *Galaxy) cleanupPortMapping(req *galaxyapi.PodRequest) error {
-	g.pmhandler.CloseHostports(k8s.GetPodFullName(req.PodName, req.PodNamespace))
+	// host ports are tracked per pod name: a (repeated) DEL of an earlier sandbox of the pod must not close the ports
+	// which were opened for its current sandbox
+	if g.hostPortOwners.release(k8s.GetPodFullName(req.PodName, req.PodNamespace), req.ContainerID) {
+		g.pmhandler.CloseHostports(k8s.GetPodFullName(req.PodName, req.PodNamespace))
+	}
 	return g.cleanIPtables(req.ContainerID)
+}
+
+// hostPortOwners remembers for which sandbox (container id) the host ports of a pod were opened last
+type hostPortOwners struct {
+	sync.Mutex
+	owners map[string]string
+}
+
+func (o *hostPortOwners) set(podFullName, containerID string) {
+	o.Lock()
+	defer o.Unlock()
+	if o.owners == nil {
+		o.owners = map[string]string{}
+	}
+	o.owners[podFullName] = containerID
+}
+
+// release returns false if the host ports of the pod were opened for another sandbox than containerID. If the owner is
+// unknown (e.g. the ports were opened when galaxy started) or containerID, it forgets the owner and returns true.
+func (o *hostPortOwners) release(podFullName, containerID string) bool {
+	o.Lock()
+	defer o.Unlock()
+	if owner, ok := o.owners[podFullName]; ok && owner != containerID {
+		return false
+	}
+	delete(o.owners, podFullName)
+	return true
 }
 
 func (g *Galaxy) cleanIPtables(containerID string) error {
